@@ -210,3 +210,66 @@ pub fn oracle(c: &Corpus, _seed: u64, tier: &str) -> Vec<Report> {
     r2.distinct_nontrivial = d2.len() as u64;
     vec![r1, r2]
 }
+
+// ---------------------------------------------------------------- C11 stream `stmts`
+/// Statements loop: all token sequences up to length N over {SELECT, number, `;`, END, `)`, space}
+/// through the real `parse_statements` vs `Model/Stmts.lean` with statements `SELECT n`.
+pub fn corr_stmts(dir: &str, seed: u64, tier: &str) -> Report {
+    let mut r = Report::new("C11", "corr.stmts", "real Parser::parse_statements on ALL token sequences up to length N over {SELECT, numbers, `;`, END, `)`, whitespace} (statements are `SELECT n`) plus random longer scripts; outcome = list of statement values or error class (statement error / expected end of statement); non-trivial = distinct answers");
+    let al: Vec<(&str, Token)> = vec![
+        ("S", Token::make_word("SELECT", None)),
+        ("n1", Token::Number("1".into(), false)),
+        ("n2", Token::Number("2".into(), false)),
+        (";", Token::SemiColon),
+        ("E", Token::make_word("END", None)),
+        (")", Token::RParen),
+        ("w", Token::Whitespace(Whitespace::Newline)),
+    ];
+    let d = GenericDialect {};
+    let mut req = std::fs::File::create(format!("{dir}/stmts.req")).unwrap();
+    let mut real = std::fs::File::create(format!("{dir}/stmts.real")).unwrap();
+    let mut distinct = BTreeSet::new();
+    let mut emit = |codes: &[usize], r: &mut Report| {
+        let toks: Vec<Token> = codes.iter().map(|&i| al[i].1.clone()).collect();
+        let wire = if codes.is_empty() { "-".to_string() } else { codes.iter().map(|&i| al[i].0).collect::<Vec<_>>().join(" ") };
+        writeln!(req, "stmts\t{wire}").unwrap();
+        let a = match guard(|| Parser::new(&d).with_tokens(toks).parse_statements()) {
+            G::Val(Ok(v)) => {
+                let vals: Vec<String> = v.iter().map(|s| s.to_string().trim_start_matches("SELECT ").to_string()).collect();
+                format!("OK {}", if vals.is_empty() { "-".to_string() } else { vals.join(" ") })
+            }
+            G::Val(Err(e)) => if e.to_string().contains("Expected: end of statement") { "ERR end".to_string() } else { "ERR stmt".to_string() },
+            G::Panic(m) => format!("PANIC {m}"),
+        };
+        distinct.insert(a.clone());
+        r.count(a.split(' ').take(2).collect::<Vec<_>>().join("-").as_str());
+        writeln!(real, "{a}").unwrap();
+        r.evaluations += 1;
+        if r.evaluations % 30011 == 5 { r.sample(serde_json::json!({"tokens": wire, "answer": a})); }
+    };
+    let n = al.len();
+    let maxlen = if tier == "thorough" { 7 } else { 6 };
+    for len in 0..=maxlen {
+        for mut x in 0..n.pow(len as u32) {
+            let mut codes = vec![];
+            for _ in 0..len { codes.push(x % n); x /= n; }
+            emit(&codes, &mut r);
+        }
+    }
+    r.exhaustive = true;
+    let mut rng = Rng(seed ^ 0xC11);
+    for _ in 0..(if tier == "thorough" { 50000 } else { 5000 }) {
+        // mostly well-formed scripts with random layout
+        let k = 1 + rng.below(6);
+        let mut codes = vec![];
+        for _ in 0..rng.below(3) { codes.push(3); }
+        for i in 0..k {
+            codes.push(0); codes.push(1 + rng.below(2));
+            if rng.chance(1, 12) { codes.push(*rng.pick(&[4, 5, 0])); }
+            if i + 1 < k || rng.chance(1, 2) { for _ in 0..(1 + rng.below(3)) { codes.push(3); if rng.chance(1, 3) { codes.push(6); } } }
+        }
+        emit(&codes, &mut r);
+    }
+    r.distinct_nontrivial = distinct.len() as u64;
+    r
+}
